@@ -77,6 +77,14 @@ def tasks(tier, seed):
             for pat in ("0", "to"):
                 ts.append({"kind": "responsive", "iv": iv, "to": to, "pat": pat, "payload": "k", "traffic": traffic, "bound": 2, "prior": "errored-run",
                            "name": "after-errored-run/responsive/%s/%s/%s/%s" % (iv, to, pat, traffic)})
+    # ... after a clean first run of the same object with OTHER settings: nothing of them may govern the second run
+    for iv, to in ((2, 1), (3, 1), (2.5, 2)):
+        for fk in ({"ping_interval": 30, "ping_timeout": 10}, {"ping_interval": 30}, {}, {"ping_interval": 1, "ping_timeout": 0.5, "ping_payload": "old"}):
+            tag = "first=%s/%s" % (fk.get("ping_interval"), fk.get("ping_timeout"))
+            ts.append({"kind": "silent", "iv": iv, "to": to, "j": 1, "payload": "k", "traffic": "none", "bound": 2, "prior": "other-settings-run", "first_kwargs": fk,
+                       "name": "after-run-with-other-settings/%s/silent/%s/%s/j1" % (tag, iv, to)})
+            ts.append({"kind": "responsive", "iv": iv, "to": to, "pat": "to", "payload": "k", "traffic": "none", "bound": 2, "prior": "other-settings-run", "first_kwargs": fk,
+                       "name": "after-run-with-other-settings/%s/responsive/%s/%s/to" % (tag, iv, to)})
     # ... and the connection re-established inside ONE run_forever(reconnect=1) after the first was lost
     for iv, to in ((2, 1), (3, 1), (2.5, 2), (2, None)):
         for traffic in ("none", "chatty"):
@@ -210,6 +218,12 @@ class Harness:
             spec["attempts"] = [lambda: tnet.ServerPeer(script=[(lost_at, "eof", b"")], on_ping=("all", 0.0))]
             spec["second_run"] = True
             spec["second_attempts"] = [mk]
+        if d.get("prior") == "other-settings-run":
+            # the first run of the same object used OTHER keepalive settings (long interval, long or no timeout) and ended cleanly
+            spec["attempts"] = [lambda: tnet.ServerPeer(script=[(0.5, "data", R.encode(R.CLOSE, b"\x03\xe8"))], on_ping=("all", 0.0))]
+            spec["second_run"] = True
+            spec["second_attempts"] = [mk]
+            spec["first_run_kwargs"] = dict(d["first_kwargs"])
         if d.get("prior") == "reconnected":
             # ONE run_forever(reconnect=1): the first connection is lost, the measured connection is the one the app re-establishes
             lost_at = iv + 0.5
